@@ -118,9 +118,9 @@ class DistributeMapper(IdentityMapper):
                 child**expr.exponent for child in newbase.children
                 ]))
 
-        if isinstance(expr.exponent, int):
+        if isinstance(expr.exponent, int) and expr.exponent >= 0:
             if isinstance(newbase, Sum):
-                return self.map_product(
+                return self.rec(
                         pymbolic.flattened_product(
                             expr.exponent*(newbase,)))
             else:
